@@ -217,7 +217,9 @@ pub struct RefPeer {
 impl RefPeer {
     pub fn new(role: Role, kind: PeerKind, fill_seed: u64) -> RefPeer {
         let my_p1 = match kind {
-            PeerKind::Original => make_plain_p1(fill_seed, true),
+            // "original (digest-less)": RTMP 1.0 wants four zero bytes after the time field, but
+            // deployed digest-less peers put anything there -- both occur
+            PeerKind::Original => make_plain_p1(fill_seed, (fill_seed >> 9) & 1 == 0),
             PeerKind::Fp9 { scheme, offset, high } => make_p1(role, scheme, offset, high, fill_seed),
         };
         RefPeer {
